@@ -692,6 +692,11 @@ impl<'a, 'ast> Visit<'ast> for Collector<'a> {
     }
     fn visit_expr_path(&mut self, p: &'ast syn::ExprPath) {
         let segs: Vec<String> = p.path.segments.iter().map(|s| s.ident.to_string()).collect();
+        if segs.len() == 1 && FCONSTS.with(|f| f.borrow().contains(&segs[0])) {
+            let (_, e) = range(p.span());
+            self.push(e, e, "()".into(), "R5c");
+            return;
+        }
         if segs.len() == 2 && (segs[0] == "ValueType" || segs[0] == "f64") {
             let up = segs[1].chars().all(|c| c.is_uppercase() || c == '_' || c.is_ascii_digit());
             let (s, e) = range(p.span());
@@ -858,6 +863,8 @@ fn apply_edits(src: &str, base: usize, end: usize, mut edits: Vec<Edit>) -> Resu
     out.push_str(&src[pos..end]);
     Ok(out)
 }
+
+thread_local! { static FCONSTS: std::cell::RefCell<Vec<String>> = std::cell::RefCell::new(Vec::new()); }
 
 #[derive(Default, Debug)]
 struct Block {
@@ -1139,8 +1146,24 @@ fn extract(src: &Src, b: &Block, report: &mut Vec<serde_json::Value>, vacuity: b
                 vis_pub(&mut col, &s.vis, range(s.type_token.span()).0);
             }
             syn::Item::Const(s) => {
-                vis_pub(&mut col, &s.vis, range(s.const_token.span()).0);
-                col.visit_expr(&s.expr);
+                let ty = nows(&src.text[range(s.ty.span()).0..range(s.ty.span()).1]);
+                if ty == "ValueType" || ty == "f64" {
+                    // R5c: a float constant becomes a nullary fn (R::lit is not const); uses are rewritten to calls (see FCONSTS)
+                    let (is, _) = range(s.span());
+                    let (ts, _) = range(s.const_token.span());
+                    let (es, _) = range(s.expr.span());
+                    let (_, ie) = range(s.span());
+                    let (_, ee) = range(s.expr.span());
+                    col.push(is, ts, String::new(), "R5c");
+                    let contract = if b.contract.is_empty() { String::new() } else { format!("\n{}\n", indent(&b.contract, "\t\t")) };
+                    col.push(ts, es, format!("pub fn {}() -> (r: ValueType){}{{ ", s.ident, contract), "R5c");
+                    col.visit_expr(&s.expr);
+                    col.push(ee, ie, " }".into(), "R5c");
+                    FCONSTS.with(|f| f.borrow_mut().push(s.ident.to_string()));
+                } else {
+                    vis_pub(&mut col, &s.vis, range(s.const_token.span()).0);
+                    col.visit_expr(&s.expr);
+                }
             }
             _ => unreachable!(),
         }
